@@ -4,6 +4,7 @@ package snaps
 
 import (
 	"github.com/gkampitakis/go-snaps/internal/vxrt"
+	"github.com/gkampitakis/go-snaps/match"
 )
 
 // H_C02_snapshot: a stored text F0 and a different received text F1, updating
@@ -155,4 +156,33 @@ func H_C02_ansi() {
 	vxrt.Assert(len(t.errors) == 1, "C02:one-error")
 	vxrt.Assert(len(t.logs) == 0, "C02:no-log")
 	vxrt.Assert(vxrt.FSStamp() == stamp, "C02:no-write")
+}
+
+// H_C02_afterinvalid: the call after a rejected one (invalid JSON, or a failing matcher) is still
+// compared with its own slot: slot 2 holds another value than the one received, so it fails once,
+// although slot 1 holds exactly the received value.
+func H_C02_afterinvalid() {
+	vxrt.CI(false)
+	vxrt.EnvFixed("NO_COLOR", "1")
+	vxrt.EnvFixed("UPDATE_SNAPS", "")
+	dir := vxrt.Dir()
+	path := dir + "/f.snap"
+	content := vxFrame("TestJ - 1", "{\n \"v\": 1\n}") + vxFrame("TestJ - 2", "{\n \"v\": 2\n}") + vxFrame("TestJ - 3", "{\n \"v\": 1\n}")
+	vxWriteFile(path, content)
+	c := WithConfig(Dir(dir), Filename("f"))
+	t := vxNewT("TestJ")
+	if vxrt.Bool("matcher-error") {
+		c.MatchJSON(t, `{"v":1}`, match.Any("missing"))
+	} else {
+		c.MatchJSON(t, `{"v":`)
+	}
+	vxrt.Assert(len(t.errors) == 1, "C17:matcher-failure-fails-once")
+	t.errors = nil
+	c.MatchJSON(t, `{"v":1}`)
+	vxrt.Assert(len(t.errors) == 1 && len(t.logs) == 0, "C02:one-error")
+	t.errors = nil
+	c.MatchJSON(t, `{"v":1}`)
+	vxrt.Assert(len(t.errors) == 0 && len(t.logs) == 0, "C03:kth-call-addresses-slot-k")
+	t.end()
+	vxrt.Assert(vxReadFile(path) == content, "C02:no-write")
 }
